@@ -1847,9 +1847,16 @@ class Interp:
             return it
         if hasattr(v, "pyvc_next"):
             return v
+        from .builtins_ import _KeysView, _DictView
+        if isinstance(v, (_KeysView, _DictView)):
+            return _DictIter(v.d, getattr(v, "kind", "keys"))
         if isinstance(v, (list, tuple, collections.deque)):
             return _LiveIter(v)
-        if isinstance(v, (set, frozenset, dict, range, str, bytes)):
+        if isinstance(v, dict):
+            return _DictIter(v, "keys")
+        if isinstance(v, set):
+            return _DictIter(v, "set")
+        if isinstance(v, (frozenset, range, str, bytes)):
             return _ListIter(list(v))
         from .vals import SymSet
         if isinstance(v, SymSet):
@@ -1937,6 +1944,43 @@ class _ListIter:
             raise _IterStop()
         self.i += 1
         return self.items[self.i - 1]
+
+
+class _DictIter(_ListIter):
+    """iterator over a live dict (its keys / values / items view) or set.  Like CPython's it follows the container and raises
+    RuntimeError at the first next() after the container's size has changed - the check comes before the exhaustion test, so
+    a change made while the last element is being processed is reported too.  A change of the key set that keeps the size is
+    not modelled (CPython's behaviour then depends on the hash table's layout): EngineError."""
+
+    def __init__(self, d, kind):
+        self.d, self.kind = d, kind
+        self.items = list(d)
+        self.i = 0
+        self.n0 = len(d)
+        self.done = False
+
+    def next(self):
+        if self.done:
+            raise _IterStop()
+        if len(self.d) != self.n0:
+            self.n0 = -1
+            what = "Set" if self.kind == "set" else "dictionary"
+            raise PyRaise(Obj(BUILTIN_CLASSES["RuntimeError"], {"args": (f"{what} changed size during iteration",), "__cause__": None}))
+        if self.i >= len(self.items):
+            self.done = True
+            raise _IterStop()
+        k = self.items[self.i]
+        if k not in self.d:
+            raise EngineError("the keys of a dict / set changed during its iteration while its size did not: not modelled")
+        self.i += 1
+        if self.kind == "values":
+            return self.d[k]
+        if self.kind == "items":
+            return (k, self.d[k])
+        return k
+
+    def canon(self, cn):
+        return ("iter", self.i, len(self.items))
 
 
 class _LiveIter:
